@@ -88,6 +88,7 @@ func (sc *fatScen) scenario(memo *acceptMemo) explore.Scenario {
 				return out
 			}
 		}
+		var lastOp fsOp
 		judge := func(after string, opErr error, targets []string) {
 			switch sc.Oracle {
 			case "fatck":
@@ -140,6 +141,30 @@ func (sc *fatScen) scenario(memo *acceptMemo) explore.Scenario {
 					add(explore.Viol{Sig: "reopened|" + cl + "|after=" + after + errTag, Msg: fmt.Sprintf("%s after %s (re-opened from bytes): %s", sc.Cfg, after, det)})
 				}
 				if opErr != nil && verr == nil {
+					// the file a refused write / append was aimed at may have taken part of the new bytes (its view is
+					// re-synchronised below), but what it held BEFORE the call outside the written range must still be there
+					if lastOp.Kind == "write" || lastOp.Kind == "append" {
+						if old := s.model.get(lastOp.Path); old != nil && !old.Dir && old.Link == "" {
+							cur := len(old.Data)
+							off, ln := s.resolveOff(lastOp.Off, cur), s.resolveLen(lastOp.Len, cur)
+							if lastOp.Kind == "append" {
+								off = cur
+							}
+							if now, ok := live[s.model.key(lastOp.Path)]; !ok {
+								add(explore.Viol{Sig: "refused-call|file-vanished|" + lastOp.Kind, Msg: fmt.Sprintf("%s after the refused %s: the file it was aimed at is gone", sc.Cfg, lastOp)})
+							} else {
+								for i := 0; i < cur; i++ {
+									if i >= off && i < off+ln {
+										continue
+									}
+									if i >= len(now.Data) || now.Data[i] != old.Data[i] {
+										add(explore.Viol{Sig: "refused-call|old-content-lost|" + lastOp.Kind, Msg: fmt.Sprintf("%s after the refused %s: byte %d of the %d bytes the file held before the call (outside the range the call writes) is no longer there (file now %d bytes)", sc.Cfg, lastOp, i, cur, len(now.Data))})
+										break
+									}
+								}
+							}
+						}
+					}
 					s.resync(live, targets...)
 					// FAT only (C01 speaks of reading back "through the same handle" and of refused calls; C04 does not)
 					if rv := s.shRefused; rv != nil && sc.Cfg.Type != 4 {
@@ -191,6 +216,7 @@ func (sc *fatScen) scenario(memo *acceptMemo) explore.Scenario {
 			} else {
 				out.Class = "refused:" + op.Kind + ":" + firstWords(e.Error())
 			}
+			lastOp = op
 			judge(op.Kind+kindDetail(op), e, opTargets(op))
 			if memo != nil && (op.Kind == "write" || op.Kind == "append" || op.Kind == "create" || op.Kind == "mkdir") && (e == nil || strings.Contains(e.Error(), "space")) {
 				memo.mu.Lock()
